@@ -27,9 +27,13 @@ Scheduler program counter `spc`: 0 loop head · 1 shutdown flag read as unset ·
 the finished token or the recheck ticker · 6/7/8 = 2/3/4 of `microTaskShutdownScheduler`.
 
 Max-delay timers are actions that are enabled at any time (sound over-approximation); `tmo` counts them.
-A `Signal*MicroTask` call made with max delay 0 is special: the documentation says 0 means "the default value",
-the code (as regenerated: `signal*DefaultsZeroDelay = false`) passes 0 to `time.After`, so its timer fires at
-once; these expiries are the `z = true` timer actions, counted separately in `tz`.
+They come in two kinds. `z = false`: the timer fires when the documented max delay of the call has expired (the
+proviso of the limit clause). `z = true`: it fires *before* that — possible only where the source makes it so
+(`earlyExp`, over regenerated facts): a `Signal*MicroTask` call made with max delay 0 (the documentation says 0
+means "the default value", the code — `signal*DefaultsZeroDelay = false` — passes the 0 to `time.After`, so the
+timer fires at once), or a timer that is not armed with the caller's max delay at all (`armed ph p ≠ .param`:
+the table of what each of the four `time.After` calls — enqueue / wait phase × medium / low — is armed with).
+Early expiries are counted separately in `tz` (per followed task: `ez`).
 The priority order of the scheduler's `select` cascade is abstracted to a free choice among offered
 requests (`take`), `pickOther` is the `taskTimeslot` / `triggerLogWriting` branch.
 -/
@@ -98,6 +102,23 @@ def zeroExp : Prio → Bool
   | .med => !signalMediumDefaultsZeroDelay
   | .low => !signalLowDefaultsZeroDelay
 
+/-- the two phases of `get*PriorityClearance`, each with its own `time.After` -/
+inductive Phase | enq | wait
+  deriving DecidableEq, Repr
+
+/-- what the timer of phase `ph` in the clearance function of priority `p` is armed with (regenerated from the
+    source: the function's `maxDelay` parameter, or a constant) -/
+def armed : Phase → Prio → Arm
+  | .enq, .med => armEnqueueMedium
+  | .wait, .med => armWaitMedium
+  | .enq, .low => armEnqueueLow
+  | .wait, .low => armWaitLow
+
+/-- Can the timer of phase `ph` of a priority-`p` clearance wait fire *before* the maximum delay of the call (as
+    documented: the argument, 0 = the default) has expired? Two ways, both read off the source: a `Signal*` function
+    hands a 0 on to `time.After` (`zeroExp`), or the timer is not armed with the caller's max delay at all. -/
+def earlyExp (ph : Phase) (p : Prio) : Bool := zeroExp p || (armed ph p != Arm.param)
+
 /-- the scheduler's admission guard, as regenerated from the source -/
 def space (s : St) : Bool := schedSpace s.cnt (s.lim : Int)
 
@@ -112,7 +133,8 @@ inductive Act
   | wakeToken                         -- scheduler: <-microTaskFinished
   | wakeTick                          -- scheduler: <-recheck.C
   | shutdown                          -- shutdownFlag set
-  -- max-delay timers; `z = true`: the timer of a Signal* call made with max delay 0, firing at once
+  -- max-delay timers; `z = true`: the timer fires although the documented max delay of the call has not expired
+  -- (`earlyExp`: a Signal* call made with max delay 0, or a timer that is not armed with the caller's max delay)
   | tmoEnq (p : Prio) (z : Bool)      -- maxDelay expired before the request could be enqueued
   | tmoInc                            -- … the task counts itself
   | tmoWait (p : Prio) (z : Bool)     -- maxDelay expired while the request is still queued
@@ -122,7 +144,7 @@ inductive Act
   | hcall                             -- Run/SignalHighPriorityMicroTask called
   | hinc                              -- … atomic.AddInt32(microTasks, 1)
   | begin (high : Bool)               -- run/signalMicroTask: module counter +1; fn starts / Signal* returns
-  | fnRet (high : Bool) (out : Nat)   -- fn returned (0 nil, 1 error, 2 panic) / first effective done()
+  | fnRet (high : Bool) (out : Nat)   -- fn returned (0 nil, 2 panicked, any other number: that error value) / first effective done()
   | modDec (high : Bool)              -- concludeMicroTask: module counter −1
   | dec (high : Bool)                 -- concludeMicroTask: global counter −1
   | tokSend                           -- concludeMicroTask: microTaskFinished <- {} succeeded
@@ -174,9 +196,9 @@ def step (s : St) : Act → Option St
   | .tmoEnq .med false => if 0 < s.wM then some { s with wM := s.wM - 1, te := s.te + 1, tmo := s.tmo + 1 } else none
   | .tmoEnq .low false => if 0 < s.wL then some { s with wL := s.wL - 1, te := s.te + 1, tmo := s.tmo + 1 } else none
   | .tmoEnq .med true =>
-    if 0 < s.wM ∧ zeroExp .med then some { s with wM := s.wM - 1, te := s.te + 1, tz := s.tz + 1 } else none
+    if 0 < s.wM ∧ earlyExp .enq .med then some { s with wM := s.wM - 1, te := s.te + 1, tz := s.tz + 1 } else none
   | .tmoEnq .low true =>
-    if 0 < s.wL ∧ zeroExp .low then some { s with wL := s.wL - 1, te := s.te + 1, tz := s.tz + 1 } else none
+    if 0 < s.wL ∧ earlyExp .enq .low then some { s with wL := s.wL - 1, te := s.te + 1, tz := s.tz + 1 } else none
   | .tmoInc =>
     if 0 < s.te ∧ timeoutEnqueueCounts then some (addG { s with te := s.te - 1, c := s.c + 1 } dTimeoutMedium) else none
   | .tmoWait .med false =>
@@ -184,18 +206,18 @@ def step (s : St) : Act → Option St
   | .tmoWait .low false =>
     if 0 < s.wL ∧ !timeoutWaitCounts then some { s with wL := s.wL - 1, sL := s.sL + 1, c := s.c + 1, tmo := s.tmo + 1 } else none
   | .tmoWait .med true =>
-    if 0 < s.wM ∧ !timeoutWaitCounts ∧ zeroExp .med then
+    if 0 < s.wM ∧ !timeoutWaitCounts ∧ earlyExp .wait .med then
       some { s with wM := s.wM - 1, sM := s.sM + 1, c := s.c + 1, tz := s.tz + 1 } else none
   | .tmoWait .low true =>
-    if 0 < s.wL ∧ !timeoutWaitCounts ∧ zeroExp .low then
+    if 0 < s.wL ∧ !timeoutWaitCounts ∧ earlyExp .wait .low then
       some { s with wL := s.wL - 1, sL := s.sL + 1, c := s.c + 1, tz := s.tz + 1 } else none
   | .tmoHeld false =>
     if (s.spc = 3 ∨ s.spc = 7) ∧ s.hk = 1 then some { s with hk := 2, pend := 1, c := s.c + 1, tmo := s.tmo + 1 } else none
   | .tmoHeld true =>
-    if (s.spc = 3 ∨ s.spc = 7) ∧ s.hk = 1 ∧ (zeroExp .med || zeroExp .low) then
+    if (s.spc = 3 ∨ s.spc = 7) ∧ s.hk = 1 ∧ (earlyExp .wait .med || earlyExp .wait .low) then
       some { s with hk := 2, pend := 1, c := s.c + 1, tz := s.tz + 1 } else none
   | .tmoLate false => some { s with tmo := s.tmo + 1 }
-  | .tmoLate true => if zeroExp .med || zeroExp .low then some { s with tz := s.tz + 1 } else none
+  | .tmoLate true => if earlyExp .wait .med || earlyExp .wait .low then some { s with tz := s.tz + 1 } else none
   | .callNil => some s
   | .hcall => some { s with hp := s.hp + 1 }
   | .hinc => if 0 < s.hp then some (addG { s with hp := s.hp - 1, hc := s.hc + 1 } dHighRun) else none
@@ -249,8 +271,9 @@ structure DSt where
                  -- 10 returned to the caller · 11 returned errNoModule
   req : Nat      -- clearance request: 0 none · 1 queued · 2 held by the scheduler · 3 closed · 4 counted · 5 never enqueued
   execs : Nat    -- how often fn was invoked
-  out : Nat      -- outcome of fn: 0 nil, 1 error, 2 panic
-  res : Nat      -- result handed to the caller: 0 nil, 1 fn's error, 2 panic error, 3 errNoModule, 9 nothing yet
+  out : Nat      -- outcome of fn: 0 nil, 2 panic, any other number: that error value (the harness numbers the values
+                 -- of its dictionary 100, 101, …: plain, context.Canceled, wrapped, typed nil, *ModuleError, …)
+  res : Nat      -- result handed to the caller: 0 nothing (yet), 1 errNoModule, `out + 2`: the outcome `out` of fn
   gI : Nat       -- increments of the global counter on behalf of this task
   gD : Nat       -- decrements of the global counter on behalf of this task
   mI : Nat
@@ -258,35 +281,56 @@ structure DSt where
   flag : Nat     -- doneCalled
   dones : Nat    -- done() calls that have performed their CAS
   chk : Nat      -- calls of m.checkIfStopComplete() made by this task's conclusion
+  ez : Nat       -- ghost: timers of this task's clearance wait that fired before its documented max delay expired
   deriving Repr, DecidableEq
 
 def DSt.new (cls var nilm zd : Nat) : DSt :=
-  { cls := cls, var := var, nilm := nilm, zd := zd, pc := 0, req := 0, execs := 0, out := 0, res := 9,
-    gI := 0, gD := 0, mI := 0, mD := 0, flag := 0, dones := 0, chk := 0 }
+  { cls := cls, var := var, nilm := nilm, zd := zd, pc := 0, req := 0, execs := 0, out := 0, res := 0,
+    gI := 0, gD := 0, mI := 0, mD := 0, flag := 0, dones := 0, chk := 0, ez := 0 }
 
 def prioCls : Prio → Nat
   | .med => 0
   | .low => 1
 
-/-- is a timer event of kind `z` (true: immediate expiry of a zero max delay) possible for this task? -/
-def DSt.zOk (d : DSt) (z : Bool) : Prop := z = true ↔ (d.zd = 1 ∧ d.var = 2)
+def clsPrio (cls : Nat) : Prio := if cls = 1 then .low else .med
 
-instance (d : DSt) (z : Bool) : Decidable (d.zOk z) := by unfold DSt.zOk; infer_instance
+/-- Can the timer of phase `ph` fire for this task before its documented max delay has expired? Only if the task is
+    a `Signal*` call made with max delay 0 whose function hands the 0 to `time.After`, or if the timer of that phase
+    is not armed with the caller's max delay (`armed`, regenerated). -/
+def DSt.early (d : DSt) (ph : Phase) : Prop :=
+  (d.zd = 1 ∧ d.var = 2 ∧ zeroExp (clsPrio d.cls) = true) ∨ armed ph (clsPrio d.cls) ≠ Arm.param
+
+instance (d : DSt) (ph : Phase) : Decidable (d.early ph) := by unfold DSt.early; infer_instance
+
+/-- is a timer event of kind `z` (true: it fires before the documented max delay expired) possible for this task? -/
+def DSt.zOk (d : DSt) (ph : Phase) (z : Bool) : Prop := z = true → d.early ph
+
+instance (d : DSt) (ph : Phase) (z : Bool) : Decidable (d.zOk ph z) := by unfold DSt.zOk; infer_instance
+
+def zN (z : Bool) : Nat := if z then 1 else 0
+
+/-- What the caller of a blocking variant gets for the function's outcome `out`: the outcome itself.
+    `runMicroTask` assigns `err = fn(m.Ctx)` right before its bare return, only the panic branch of its deferred
+    closure replaces it (`runReturnsFnError`), and every `Run*` variant returns `m.runMicroTask(name, fn)` directly
+    (`runVariantsReturnDirect`) — both regenerated. Nothing on that path reads the state of the module. -/
+def retVal (out : Nat) : Nat := if runReturnsFnError && runVariantsReturnDirect then out + 2 else 0
 
 def dstep (d : DSt) (a : Act) (me : Bool) : Option DSt :=
   if me then
     match a with
-    | .callNil => if d.pc = 0 ∧ d.nilm = 1 then some { d with pc := 11, res := 3 } else none
+    | .callNil => if d.pc = 0 ∧ d.nilm = 1 then some { d with pc := 11, res := 1 } else none
     | .submit p => if d.pc = 0 ∧ d.nilm = 0 ∧ d.cls = prioCls p then some { d with pc := 2, req := 1 } else none
     | .hcall => if d.pc = 0 ∧ d.nilm = 0 ∧ d.cls = 2 then some { d with pc := 1 } else none
     | .hinc => if d.pc = 1 then some { d with pc := 4, gI := d.gI + 1 } else none
     | .take p false => if d.req = 1 ∧ d.cls = prioCls p ∧ d.pc = 2 then some { d with req := 2 } else none
     | .take p true => if d.req = 1 ∧ d.cls = prioCls p ∧ 4 ≤ d.pc then some { d with req := 2 } else none
-    | .tmoEnq p z => if d.pc = 2 ∧ d.req = 1 ∧ d.cls = prioCls p ∧ d.zOk z then some { d with pc := 3, req := 5 } else none
+    | .tmoEnq p z =>
+      if d.pc = 2 ∧ d.req = 1 ∧ d.cls = prioCls p ∧ d.zOk .enq z then some { d with pc := 3, req := 5, ez := d.ez + zN z } else none
     | .tmoInc => if d.pc = 3 then some { d with pc := 4, gI := d.gI + 1 } else none
-    | .tmoWait p z => if d.pc = 2 ∧ d.req = 1 ∧ d.cls = prioCls p ∧ d.zOk z then some { d with pc := 4 } else none
-    | .tmoHeld z => if d.pc = 2 ∧ d.req = 2 ∧ d.zOk z then some { d with pc := 4 } else none
-    | .tmoLate z => if 4 ≤ d.pc ∧ (d.req = 3 ∨ d.req = 4) ∧ d.zOk z then some d else none
+    | .tmoWait p z =>
+      if d.pc = 2 ∧ d.req = 1 ∧ d.cls = prioCls p ∧ d.zOk .wait z then some { d with pc := 4, ez := d.ez + zN z } else none
+    | .tmoHeld z => if d.pc = 2 ∧ d.req = 2 ∧ d.zOk .wait z then some { d with pc := 4, ez := d.ez + zN z } else none
+    | .tmoLate z => if 4 ≤ d.pc ∧ (d.req = 3 ∨ d.req = 4) ∧ d.zOk .wait z then some { d with ez := d.ez + zN z } else none
     | .begin high =>
       if d.pc = 4 ∧ (high = true ↔ d.cls = 2) then
         some { d with pc := 5, mI := d.mI + 1, execs := if d.var = 2 then d.execs else d.execs + 1 }
@@ -306,7 +350,7 @@ def dstep (d : DSt) (a : Act) (me : Bool) : Option DSt :=
       else none
     | .tokSend => if d.pc = 8 then some { d with pc := 9 } else none
     | .tokDrop => if d.pc = 8 then some { d with pc := 9 } else none
-    | .ret => if d.pc = 9 then some { d with pc := 10, res := if d.var = 0 then d.out else d.res } else none
+    | .ret => if d.pc = 9 then some { d with pc := 10, res := if d.var = 0 then retVal d.out else d.res } else none
     | .doneAgain => if d.var = 2 ∧ d.flag = 1 then some { d with dones := d.dones + 1 } else none
     | _ => none
   else
@@ -398,6 +442,58 @@ def mrun (m : MSt) : List MAct → Option MSt
   | [] => some m
   | a :: as => match mstep m a with
     | some m' => mrun m' as
+    | none => none
+
+/-! ## One task followed together with its module
+
+The product of `fstep` (counters + the followed task) and `mstep` (the module the task belongs to): the task's own
+`begin` / `modDec` are the module's `begin` / `modDec`; every other step of the module — its stop protocol, restarts,
+stop checks by anybody (the followed task's conclusion among them), begin and conclusion of its other microtasks — is
+a free `TAct.mod` step, so a run of `tstep` interleaves the task with *every* history of its module. The ghosts
+`rflag` / `rst` record the module's stop flag and status at the moment the task's function returned. Nothing in
+`dstep` reads them: as in the source, the way of the function's error to the caller does not look at the module. -/
+
+structure TSt where
+  f : FSt
+  m : MSt
+  rflag : Nat    -- ghost: the module's stop flag (`IsStopping()`) when the function returned; 9: not yet
+  rst : Nat      -- ghost: the module's status then (0 offline, 1 online, 2 stopping); 9: not yet
+  deriving Repr, DecidableEq
+
+def TSt.new (lim cls var zd : Nat) : TSt := ⟨⟨init lim, DSt.new cls var 0 zd⟩, MSt.init, 9, 9⟩
+
+inductive TAct
+  | task (a : Act) (me : Bool)   -- an action of the scheduler or of any task; `me`: of the followed task
+  | mod (a : MAct)               -- a step of the module other than the followed task's begin / module decrement
+  deriving DecidableEq, Repr
+
+def tstep (t : TSt) : TAct → Option TSt
+  | .mod a =>
+    match mstep t.m a with
+    | some m' => some { t with m := m' }
+    | none => none
+  | .task a me =>
+    match fstep t.f a me with
+    | none => none
+    | some f' =>
+      if me then
+        match a with
+        | .begin _ =>
+          match mstep t.m .begin with
+          | some m' => some { t with f := f', m := m' }
+          | none => none
+        | .modDec _ =>
+          match mstep t.m .modDec with
+          | some m' => some { t with f := f', m := m' }
+          | none => none
+        | .fnRet _ _ => some { t with f := f', rflag := t.m.flag, rst := t.m.st }
+        | _ => some { t with f := f' }
+      else some { t with f := f' }
+
+def trun (t : TSt) : List TAct → Option TSt
+  | [] => some t
+  | a :: as => match tstep t a with
+    | some t' => trun t' as
     | none => none
 
 end PB.MicroTasks
